@@ -3,6 +3,7 @@ package verifsim
 import (
 	"encoding/hex"
 	"fmt"
+	"strings"
 
 	quic "github.com/refraction-networking/uquic"
 	"github.com/refraction-networking/uquic/internal/handshake"
@@ -166,9 +167,19 @@ func wApplyDerive(spec *quic.QUICSpec, d *WDerive) error {
 	case len(d.Token) > 7 && d.Token[:7] == "prefix:":
 		var hx string
 		var n int
-		fmt.Sscanf(d.Token[7:], "%[0-9a-f]:%d", &hx, &n)
+		if parts := strings.SplitN(d.Token[7:], ":", 2); len(parts) == 2 {
+			hx = parts[0]
+			fmt.Sscanf(parts[1], "%d", &n)
+		}
 		b, _ := hex.DecodeString(hx)
-		ips.ClientTokenPrefix, ips.ClientTokenLength = b, n
+		// the prefix is the head of a larger buffer of the caller's (e.g. a captured token): the rest must stay untouched
+		d.tokBacking = make([]byte, len(b)+n+16)
+		for i := range d.tokBacking {
+			d.tokBacking[i] = 0xa5
+		}
+		copy(d.tokBacking, b)
+		d.tokPrefixLen = len(b)
+		ips.ClientTokenPrefix, ips.ClientTokenLength = d.tokBacking[:len(b)], n
 	}
 	if d.SrcCIDLen != 0 {
 		ips.SrcConnIDLength = max(d.SrcCIDLen, 0)
